@@ -21,14 +21,31 @@ type ctlCase struct {
 	side    streams.Side // side of the endpoint that receives the control frame and replies
 	op      byte
 	payload []byte
+	// flags: further state bits the endpoint carries besides its side (an extension was
+	// negotiated; a fragmented message is being received). They do not change what the reply
+	// has to look like.
+	flags ws.State
 }
+
+// st is the state value the caller hands to the control-handling entry points.
+func (c ctlCase) st() ws.State { return wsState(c.side) | c.flags }
+
+// readerSt is the state of a Reader that is about to meet the control frame at top level.
+func (c ctlCase) readerSt() ws.State { return wsState(c.side) | c.flags&ws.StateExtended }
 
 func (c ctlCase) String() string {
 	p := fmt.Sprintf("%x", c.payload)
 	if len(p) > 24 {
 		p = p[:24] + fmt.Sprintf("..(%d bytes)", len(c.payload))
 	}
-	return fmt.Sprintf("%s op=%x payload=%s", c.side, c.op, p)
+	fl := ""
+	if c.flags.Is(ws.StateExtended) {
+		fl += "+extended"
+	}
+	if c.flags.Is(ws.StateFragmented) {
+		fl += "+fragmented"
+	}
+	return fmt.Sprintf("%s%s op=%x payload=%s", c.side, fl, c.op, p)
 }
 
 // class names the coarse input class for signatures.
@@ -178,14 +195,14 @@ func entries() []entry {
 				h.Masked, h.Mask = true, srcMask
 				wire = refmodel.XOR(c.payload, srcMask, 0)
 			}
-			ch := wsutil.ControlHandler{Src: bytes.NewReader(wire), Dst: d, State: wsState(c.side)}
+			ch := wsutil.ControlHandler{Src: bytes.NewReader(wire), Dst: d, State: c.st()}
 			err := ch.Handle(h)
 			return d.Bytes(), err
 		}},
 		{"Handle/unmasked-src", func(c ctlCase) ([]byte, error) {
 			d := env.NewDst()
 			h := ws.Header{Fin: true, OpCode: ws.OpCode(c.op), Length: int64(len(c.payload)), Masked: c.side == streams.Server, Mask: srcMask}
-			ch := wsutil.ControlHandler{Src: bytes.NewReader(c.payload), Dst: d, State: wsState(c.side), DisableSrcCiphering: true}
+			ch := wsutil.ControlHandler{Src: bytes.NewReader(c.payload), Dst: d, State: c.st(), DisableSrcCiphering: true}
 			err := ch.Handle(h)
 			return d.Bytes(), err
 		}},
@@ -194,13 +211,13 @@ func entries() []entry {
 			h := ws.Header{Fin: true, OpCode: ws.OpCode(c.op), Length: int64(len(c.payload)), Masked: c.side == streams.Server, Mask: srcMask}
 			src := env.NewSrc(c.payload)
 			src.Policy = env.FixedChunk(3)
-			ch := wsutil.ControlHandler{Src: src, Dst: d, State: wsState(c.side), DisableSrcCiphering: true}
+			ch := wsutil.ControlHandler{Src: src, Dst: d, State: c.st(), DisableSrcCiphering: true}
 			err := ch.Handle(h)
 			return d.Bytes(), err
 		}},
 		{"HandleControlMessage", func(c ctlCase) ([]byte, error) {
 			d := env.NewDst()
-			err := wsutil.HandleControlMessage(d, wsState(c.side), wsutil.Message{OpCode: ws.OpCode(c.op), Payload: c.payload})
+			err := wsutil.HandleControlMessage(d, c.st(), wsutil.Message{OpCode: ws.OpCode(c.op), Payload: c.payload})
 			return d.Bytes(), err
 		}},
 		{"HandleClient/ServerControlMessage", func(c ctlCase) ([]byte, error) {
@@ -216,8 +233,8 @@ func entries() []entry {
 		{"ControlFrameHandler/Reader-toplevel", func(c ctlCase) ([]byte, error) {
 			d := env.NewDst()
 			f := refmodel.Frame{H: refmodel.Hdr{Fin: true, Op: c.op, Masked: c.side == streams.Server, Mask: srcMask}, Payload: c.payload}
-			rd := &wsutil.Reader{Source: bytes.NewReader(f.Wire()), State: wsState(c.side)}
-			hd := wsutil.ControlFrameHandler(d, wsState(c.side))
+			rd := &wsutil.Reader{Source: bytes.NewReader(f.Wire()), State: c.readerSt()}
+			hd := wsutil.ControlFrameHandler(d, c.st())
 			h, err := rd.NextFrame()
 			if err != nil {
 				return nil, fmt.Errorf("harness: NextFrame: %v", err)
@@ -231,8 +248,8 @@ func entries() []entry {
 				return refmodel.Frame{H: refmodel.Hdr{Fin: fin, Op: op, Masked: c.side == streams.Server, Mask: srcMask}, Payload: p}.Wire()
 			}
 			data := append(append(mk(1, false, []byte("ab")), mk(c.op, true, c.payload)...), mk(0, true, []byte("cd"))...)
-			rd := &wsutil.Reader{Source: bytes.NewReader(data), State: wsState(c.side)}
-			rd.OnIntermediate = wsutil.ControlFrameHandler(d, wsState(c.side))
+			rd := &wsutil.Reader{Source: bytes.NewReader(data), State: c.readerSt()}
+			rd.OnIntermediate = wsutil.ControlFrameHandler(d, c.st())
 			if _, err := rd.NextFrame(); err != nil {
 				return nil, fmt.Errorf("harness: NextFrame: %v", err)
 			}
@@ -303,16 +320,18 @@ func main() {
 						}
 						for _, p := range payloads {
 							for _, e := range es {
-								c := ctlCase{side, op, p}
-								e := e
-								t.Do(func() string { return c.String() + " entry=" + e.name }, func() *explore.Fail {
-									w, ret := e.run(c)
-									if f := judgeReply(c, w, ret, e.name); f != nil {
-										return f
-									}
-									t.Outcome(fmt.Sprintf("op%x", op))
-									return nil
-								})
+								for _, flags := range []ws.State{0, ws.StateExtended, ws.StateFragmented, ws.StateExtended | ws.StateFragmented} {
+									c := ctlCase{side, op, p, flags}
+									e := e
+									t.Do(func() string { return c.String() + " entry=" + e.name }, func() *explore.Fail {
+										w, ret := e.run(c)
+										if f := judgeReply(c, w, ret, e.name); f != nil {
+											return f
+										}
+										t.Outcome(fmt.Sprintf("op%x", op))
+										return nil
+									})
+								}
 							}
 						}
 					}
@@ -330,7 +349,7 @@ func main() {
 				for _, side := range []streams.Side{streams.Server, streams.Client} {
 					for _, rs := range reasons {
 						p := append([]byte{byte(code >> 8), byte(code)}, rs...)
-						c := ctlCase{side, 8, p}
+						c := ctlCase{side, 8, p, []ws.State{0, ws.StateExtended, ws.StateFragmented, ws.StateExtended | ws.StateFragmented}[code%4]}
 						for _, e := range quickEntries {
 							e := e
 							t.Do(func() string { return c.String() + " entry=" + e.name }, func() *explore.Fail {
@@ -354,7 +373,9 @@ func main() {
 				mk   func(d io.Writer, st ws.State, op ws.OpCode) *wsutil.ControlWriter
 			}
 			ctors := []ctor{
-				{"NewControlWriter", func(d io.Writer, st ws.State, op ws.OpCode) *wsutil.ControlWriter { return wsutil.NewControlWriter(d, st, op) }},
+				{"NewControlWriter", func(d io.Writer, st ws.State, op ws.OpCode) *wsutil.ControlWriter {
+					return wsutil.NewControlWriter(d, st, op)
+				}},
 				{"NewControlWriterBuffer/exact", func(d io.Writer, st ws.State, op ws.OpCode) *wsutil.ControlWriter {
 					n := 125 + 2
 					if st.ClientSide() {
